@@ -34,6 +34,8 @@ func shapeOK(v *big.Int, shape string) bool {
 		return len(b) == 32 && b[0] < 0x10
 	case "highbit":
 		return len(b) == 32 && b[0] >= 0x80
+	case "top80":
+		return len(b) == 32 && b[0] == 0x80
 	}
 	return false
 }
@@ -61,6 +63,8 @@ func keyWithD(shape string) *sm2.PrivateKey {
 		case "lead0_nibble":
 			b[0] = b[0]&0x0f | 0x01
 			b[0] &= 0x0f
+		case "top80":
+			b[0] = 0x80
 		case "highbit":
 			b[0] = b[0]&0x3f | 0x80
 		case "plain":
